@@ -33,16 +33,28 @@ class U:
         return hash(s.v)
 
     def __call__(s, *a):
+        CALLS.append(id(s))
         return s
 
     def __repr__(s):
         return 'U(%r)#%x' % (s.v, id(s) & 0xfff)
 
 
+CALLS = []
+
+
 class UL(list):          # unhashable, equality by content
     def __call__(s, *a):
+        CALLS.append(id(s))
         return s
 
+
+@implementer(J)
+class _Ob:
+    pass
+
+
+OB = _Ob()
 
 OPS = ['ru', 'ru', 'uu', 'ra', 'ua', 'rs', 'us', 'rh', 'uh', 'reinit']
 
@@ -192,12 +204,20 @@ def _play(steps, ev):
         if sorted(id(f) for a, b, f in c.adapters.allSubscriptions() if b is None) != sorted(id(f) for a, f, i in Href):
             bad.append(('handler-registry', '%s: underlying handler subscriptions differ from the listed handlers' % tag, None))
 
-        @implementer(J)
-        class Ob:
-            pass
-        called = []
-        for a, f, i in Href:
-            pass
+        # handle()/subscribers() reach exactly the listed handlers / subscription adapters (asked every step, so the
+        # lookup caches are always warm when the next mutation happens)
+        ob = OB
+        del CALLS[:]
+        c.handle(ob)
+        exp_calls = sorted(id(f) for a, f, i in Href if len(a) == 1)
+        if sorted(CALLS) != exp_calls:
+            bad.append(('handle', '%s: handle(ob) called %d handlers, the listing has %d applicable ones' % (tag, len(CALLS), len(exp_calls)), None))
+        for pp in (I, J):
+            del CALLS[:]
+            c.subscribers((ob,), pp)
+            exp_calls = sorted(id(f) for a, b, f, i in Sref if len(a) == 1 and b.isOrExtends(pp))
+            if sorted(CALLS) != exp_calls:
+                bad.append(('subscribers', '%s: subscribers((ob,), %s) called %d factories, the listing has %d applicable ones' % (tag, pp.__name__, len(CALLS), len(exp_calls)), None))
         d = c.rebuildUtilityRegistryFromLocalCache()
         if d['needed_registered'] or d['needed_subscribed']:
             bad.append(('rebuild-probe', '%s: rebuildUtilityRegistryFromLocalCache() found %r to repair' % (tag, d), None))
